@@ -265,7 +265,7 @@ def run_variant(root, lines, ops, t_end, inj, part, meta, tag):
         part.count("checkpoints_published", published)
         part.count("runs_" + tag.split(":")[0])
         for k, d in fails:
-            part.violation(k, {"input": text, "detail": d, "meta": meta, "injection": inj,
+            part.violation(k, {"input": text, "detail": d, "meta": meta, "injection": inj, "lines": lines, "ops": ops, "t_end": t_end, "tag": tag,
                                "summary": "%s (%s; %d users, %d requests)" % (d, inj or "no injection", meta["users"], meta["nops"])})
         return (fsn[-1] if fsn else None), published, not fails
     finally:
@@ -332,7 +332,16 @@ def main(tier):
 
 
 def replay(path):
+    """re-run the recorded history with the recorded injection on the current tree, inspect the spool and restart again"""
     w = json.load(open(path))
-    print(w.get("input", "")[:3000])
-    print(w.get("detail"))
-    return 1
+    root = build_or_die()
+    print("recorded:", w.get("key"), "|", (w.get("detail") or w.get("summary") or "")[:300], "|", w.get("injection"))
+    if "lines" not in w:
+        return 1
+    part = Part()
+    run_variant(root, w["lines"], w["ops"], w["t_end"], w.get("injection"), part, w.get("meta", {"users": 0, "nops": 0}), w.get("tag", "replay"))
+    for k, (n, wit) in part.viol.items():
+        print("now:", k, (wit.get("detail") or wit.get("summary") or "")[:300])
+    if not part.viol:
+        print("now: every queue file is complete and the restarted daemon schedules exactly the last checkpointed state")
+    return 1 if part.viol else 0
